@@ -35,13 +35,23 @@ def run(ctx):
             reg, _ = sess.op(k, ctx.rng.choice(regs), ctx.rng.choice(regs)) if k != 'not' else sess.op('not', ctx.rng.choice(regs))
             if reg is not None:
                 regs.append(reg)
+        # markers that reach one extra node with both polarities from different edges (if-then-else / XNOR shapes): every run, on every subset
+        # of the extras they mention
+        xnor = []
+        for t in ("(os_name == 'nt' and extra == 'a') or (os_name != 'nt' and extra != 'a')", "(python_version < '3.8' and extra != 'a') or (python_version >= '3.8' and extra == 'a')",
+                  "(sys_platform == 'x' and (extra == 'a' or extra == 'b')) or (sys_platform != 'x' and extra != 'a' and extra != 'b')",
+                  "('lin' in sys_platform and extra == 'a') or ('lin' not in sys_platform and extra != 'a')", "(extra == 'a' and extra != 'b') or (extra != 'a' and extra == 'b')"):
+            reg, r = sess.parse(t)
+            if reg is not None:
+                xnor.append(reg)
+        forced = [(a, E) for a in xnor for E in ([], ['a'], ['b'], ['a', 'b'])]
         cmds, meta = [], []
-        for a in regs:
+        for a, E_forced in forced + [(a, None) for a in regs]:
             try:
                 ma = sess.model(a)
             except Exception:
                 continue
-            E = [e for e in markers.EXTRAS if ctx.rng.random() < .35]
+            E = E_forced if E_forced is not None else [e for e in markers.EXTRAS if ctx.rng.random() < .35]
             En = [unS(sess.ask(['name', S(e)])[5][1]) for e in E]
             vs = [ctx.rng.choice(['3.7', '3.8', '3.8.1', '3.9', '3.10', '2.7']) for _ in range(ctx.rng.randint(0, 3))]
             r1 = sess.ask(['evalx', str(a), [S(e) for e in E]])
